@@ -40,7 +40,9 @@ EXPLANATION = (
     "R1.11 two contradiction rules: on the edge of a `k >= len(T)` test T[k] is not read before k is re-bound, and no loop over a "
     "live view of self.T reaches (two calls deep) a removal from / insertion into self.T; R1.12 the values of RequestResponse "
     "`data` dictionaries are JSON-serialisable by static type (no raw IPv4Address / set / datetime / Path) because the action log "
-    "written by reset()/close() json-dumps every response. "
+    "written by reset()/close() json-dumps every response; R1.13 a division or modulo by `len(X)` is dominated by a non-emptiness "
+    "test of that same X, and C11's R11.4 (each permission rule computes its predicate for every input, including 'not found') "
+    "applied here. "
     "NOT decided: that no input whatsoever makes a library call raise (KeyError/IndexError/validation errors on "
     "run-time values) and finiteness of rewards as numbers."
 )
@@ -990,6 +992,65 @@ def r1_12(ctx: Ctx) -> None:
 
 
 
+DIV_TRIAGE = {
+    ("EpisodeListScheduler.__call__", "self.schedule"): "an episode schedule with no entries is rejected when the scheduler is built (build_scheduler reads "
+                                                      "schedule.yaml, whose `schedule` mapping lists at least episode 0); not reachable from step()/reset() with a valid scenario",
+}
+
+
+def r1_13(ctx: Ctx) -> None:
+    """A division (or modulo) by `len(X)` raises ZeroDivisionError for an empty X: it must be dominated by a test that this same X is
+    non-empty (`if X:`, `len(X) > 0`, `if not X: return`).  A guard on a *different* collection (the unfiltered list) does not count.
+    Plus C11's validator table (R11.4) applied here: a permission rule that dereferences a look-up result it has not tested raises
+    out of apply_request and out of the action mask."""
+    ix = ctx.ix
+    ctx.rule("R1.13", "`/ len(X)` and `% len(X)` are dominated by a non-emptiness test of the same X (or triaged); permission rules "
+                      "compute their predicate on every input (= C11 R11.4)")
+    n = 0
+    for f in ix.functions:
+        if isinstance(f.node, ast.Lambda) or not f.path.startswith(("src/primaite/game", "src/primaite/simulator", "src/primaite/session")):
+            continue
+        divs = [x for x in ast.walk(f.node) if isinstance(x, ast.BinOp) and isinstance(x.op, (ast.Div, ast.FloorDiv, ast.Mod))
+                and isinstance(x.right, ast.Call) and isinstance(x.right.func, ast.Name) and x.right.func.id == "len" and x.right.args]
+        if not divs:
+            continue
+        g = CFG(f.node)
+        ld = LocalDefs(f.node)
+        for d in divs:
+            subj = unparse(d.right.args[0])
+            n += 1
+            key = ctx.key(f, f"`{unparse(d)[:50]}`: {subj} is known to be non-empty")
+            if (f.short, subj) in DIV_TRIAGE:
+                ctx.ok("R1.13", key, f.loc(d), DIV_TRIAGE[(f.short, subj)])
+                continue
+            here = [nd for nd in g.nodes if nd.expr_root() is not None and any(x is d for x in ast.walk(nd.expr_root()))]
+
+            def nonempty(e) -> bool:
+                if not (e.label and e.label[0] == "cond"):
+                    return False
+                t, pol = e.label[1], e.label[2]
+                if unparse(t) == subj:
+                    return pol is True
+                if isinstance(t, ast.Compare) and len(t.ops) == 1 and unparse(t.left) == f"len({subj})" and isinstance(t.comparators[0], ast.Constant):
+                    c0 = t.comparators[0].value
+                    if isinstance(t.ops[0], ast.Gt) and c0 == 0 or isinstance(t.ops[0], ast.GtE) and c0 == 1 or isinstance(t.ops[0], ast.NotEq) and c0 == 0:
+                        return pol is True
+                    if isinstance(t.ops[0], ast.Eq) and c0 == 0 or isinstance(t.ops[0], ast.Lt) and c0 == 1:
+                        return pol is False
+                return False
+
+            p = g.path_avoiding(here, nonempty) if here else []
+            ctx.record("R1.13", key, f.loc(d), p is None,
+                       f"reached only where `{subj}` is non-empty" if p is None else
+                       f"`{unparse(d)[:60]}` divides by the length of `{subj}` without a test that `{subj}` itself is non-empty: ZeroDivisionError "
+                       "out of the step when it is empty", path_text(p) if p else None)
+    ctx.floor("R1.13", "divisions by a length", n, 1)
+    from . import c11
+    with ctx.borrowed({"R11.4": "R1.13"}):
+        c11.r11_4(ctx)
+
+
+
 def check(ctx: Ctx) -> None:
     r1_9(ctx)
     r1_8(ctx)
@@ -1003,3 +1064,4 @@ def check(ctx: Ctx) -> None:
     r1_10(ctx)
     r1_11(ctx)
     r1_12(ctx)
+    r1_13(ctx)
